@@ -128,6 +128,7 @@ def check(rep, tier):
             rec["error"] = e
         recs.append(rec)
     c1, c0, l1, l0, c2, l2 = [], [], [], [], [], []
+    replotted = set()
     for rec in recs:
         lab = rec["label"]
         if rec["error"] is not None:
@@ -143,6 +144,20 @@ def check(rep, tier):
             rep.count("C07_1D_run_bounds applies (all hypotheses hold for the run's constants)")
         if st["inside"]:
             bounds_oracle(rep, rec)
+            if rec["dim"] not in replotted and not rec.get("study"):
+                # presenting the fields (both evolution plots) and reading them again: still finite, in bounds, no ice before nucleation
+                replotted.add(rec["dim"])
+                try:
+                    import matplotlib.pyplot as plt
+                    with impl.quiet():
+                        for what in ("temperature", "ice_mass_fraction"):
+                            rec["S"].plot_evolution(what); plt.close("all")
+                    nv = len(rep.violations)
+                    bounds_oracle(rep, rec); rep.count("re-read after plotting")
+                    for v in rep.violations[nv:]:
+                        v["key"] = "after-plot " + v["key"]; v["what"] = "after plot_evolution(): " + v["what"]
+                except Exception as e:
+                    rep.violation("plot-crash %s" % type(e).__name__, "%s: plot_evolution raises %r" % (lab, e), dict(run=lab))
         if rec.get("study"):
             continue
         if rec["dim"] == "spatial_1D":
